@@ -83,6 +83,11 @@ void fp2_read_bin(fp2_t a, const uint8_t *bin, size_t len) {
 		return;
 	}
 	if (len == RLC_FP_BYTES + 1) {
+		/* The last byte is the sign bit of the second coordinate. */
+		if (bin[RLC_FP_BYTES] > 1) {
+			RLC_THROW(ERR_NO_VALID);
+			return;
+		}
 		fp_read_bin(a[0], bin, RLC_FP_BYTES);
 		fp_zero(a[1]);
 		fp_set_bit(a[1], 0, bin[RLC_FP_BYTES]);
